@@ -20,6 +20,9 @@ COMMON_NOTE = ("Trusted: the harness's dense long-double reference, the choice-s
                "Exploration only: the property is shown to hold on the generated cases (counts in the evidence file), nothing is proved.")
 
 INFO = {
+    "C12": dict(level="exploration", assumptions=COMMON_ASSUME + ["true condition number from long-double Gauss-Jordan inversion of the matrix as factored; lower bound judged only when c*n*eps*kappa*rho < 1/2"], note=COMMON_NOTE,
+                technique="property-based testing (rapidcheck): differential against a long-double inverse for the one-sided estimator bound, exact threshold rule for info=n+1, recomputation of the growth factor from the returned factor arrays",
+                text="Generated matrices over a wide range of condition numbers (and exactly singular ones for the growth clause) go through the expert driver and direct ?gscon calls in both norms; the estimate is bounded from both sides against the true value."),
     "C14": dict(level="exploration", assumptions=COMMON_ASSUME + ["the diag flag of sp_?trsv is advisory for an (L,U) pair: the two unnatural spellings are judged for memory safety only"], note=COMMON_NOTE,
                 technique="property-based testing (rapidcheck): dense long-double reference for products and triangular systems with componentwise backward-error predicates, guard elements, bit-exact snapshots of inputs",
                 text="Generated factor pairs and rectangular matrices drive sp_?trsv (12 flag combinations), sp_?gemv/sp_?gemm (all documented spellings, alpha/beta, strides) and ?gstrs (nrhs, ldb, Trans); outputs are compared with a dense reference."),
@@ -51,7 +54,7 @@ INFO = {
 
 NOT_APPLICABLE = {}
 
-PROPS = ["C01", "C02", "C03", "C04", "C05", "C10", "C11", "C14", "C17"]
+PROPS = ["C01", "C02", "C03", "C04", "C05", "C10", "C11", "C12", "C14", "C17"]
 
 
 def all_props():
